@@ -15,7 +15,13 @@
 
 struct Rng {  // splitmix64: every random choice of a run derives from VERIF_SEED
     uint64_t s;
-    explicit Rng(uint64_t seed) : s(seed * 0x9E3779B97F4A7C15ULL + 0x1234567ULL) {}
+    explicit Rng(uint64_t seed) {
+        // one mixing round so that consecutive seeds give unrelated streams (not the same stream shifted)
+        uint64_t z = seed + 0x9E3779B97F4A7C15ULL;
+        z = (z ^ (z >> 30)) * 0xBF58476D1CE4E5B9ULL;
+        z = (z ^ (z >> 27)) * 0x94D049BB133111EBULL;
+        s = z ^ (z >> 31);
+    }
     uint64_t next() {
         uint64_t z = (s += 0x9E3779B97F4A7C15ULL);
         z = (z ^ (z >> 30)) * 0xBF58476D1CE4E5B9ULL;
